@@ -804,3 +804,313 @@ def oracle_author_links(site: Dict[str, Any], obs: Dict[str, Any], real: Dict[st
             if (a.query, a.fragment) != (b.query, b.fragment):
                 return f"{page}: query/fragment of {url!r} not preserved in {shown!r}"
     return None
+
+
+# ------------------------------------------------------------------------------------------------ listing orders
+
+def shuffle_site(site: Dict[str, Any], seed: int) -> Dict[str, Any]:
+    """The same tree listed in another order by the file system (every directory permuted)."""
+    import copy
+    s2 = copy.deepcopy(site)
+    rng = random.Random(seed)
+
+    def go(n: G.Node) -> None:
+        rng.shuffle(n["ch"])
+        for ch in n["ch"]:
+            if ch["k"] == "d":
+                go(ch)
+    go(s2["base"])
+    return s2
+
+
+# ------------------------------------------------------------------------------------------------ stand-alone pages
+
+def alone_facts_factor(scale: Any, servings: Optional[int]) -> List[Fraction]:
+    return [Fraction(scale)] if scale is not None else []
+
+
+def _alone_call(base: str, site: Dict[str, Any], a: Dict[str, Any]) -> Dict[str, Any]:
+    from pathlib import Path
+    from recipe_grid.static_site.standalone_page import generate_standalone_page
+    scale = None if a["scale"] is None else Fraction(a["scale"])
+    if scale is not None and scale.denominator == 1 and a.get("scale_int", True):
+        scale = int(scale)
+    try:
+        html = generate_standalone_page(Path(os.path.join(base, *a["file"])), scale=scale, servings=a["servings"],
+                                        embed_local_links=a["embed"])
+    except RecursionError:
+        raise
+    except Exception as e:
+        return {"error": exc_name(e), "message": str(e).replace(base, "{BASE}")[:300]}
+    p = parse_page(html)
+    return {"title": p["title"], "refs": p["refs"], "scaled": p["scaled"], "_html": html}
+
+
+def coq_alone_obs(o: Dict[str, Any]) -> str:
+    if "error" in o:
+        return f"(AErr {cstr(o['error'])})"
+    return f"(AOk {cstr(o['title'])} {cpairs([tuple(x) for x in o['refs']])} {c.lst([cstr(x) for x in o['scaled']], 'str')})"
+
+
+def coq_alone_args(a: Dict[str, Any]) -> str:
+    sc = c.opt(None if a["scale"] is None else cfactor(Fraction(a["scale"])), "factor")
+    sv = c.opt(None if a["servings"] is None else c.n_(a["servings"]), "N")
+    return f"{cpath(['B'] + list(a['file']))} {sc} {sv} {c.boolean(a['embed'])}"
+
+
+def oracle_alone(site: Dict[str, Any], base: str, a: Dict[str, Any], o: Dict[str, Any], facts: Dict[str, Any]) -> Optional[str]:
+    """C16 (stand-alone page): local files embedded byte-exact with the guessed media type, externals untouched, a
+    link outside the recipe's directory or to a missing file aborts with the documented error."""
+    if MARKER in o.get("_html", "").encode("utf-8"):
+        return "stand-alone page contains bytes of a file outside the source root"
+    fpath = os.path.join(base, *a["file"])
+    try:
+        text = open(fpath, encoding="utf-8").read()
+    except OSError:
+        return None
+    f = facts["recipes"].get(text)
+    if f is None or f["err"]:
+        return None
+    if a["servings"] is not None and (a["scale"] is not None or not f["servings"]):
+        return None
+    root = os.path.realpath(os.path.dirname(fpath))
+    author = [i[2] for i in f["items"] if i[0] == "L"]
+    if "<" in "".join(author):
+        return None
+    want_err = None
+    expect: List[Optional[Tuple[str, bytes]]] = []
+    if a["embed"]:
+        for url in author:
+            sp = urlsplit(url.strip())
+            if sp.scheme or sp.netloc or sp.path == "":
+                expect.append(None)
+                continue
+            p = unquote(sp.path)
+            if "\0" in p:
+                want_err = "known-f13"
+                break
+            tgt_unres = os.path.join(root, *p.split("/")[1:]) if p.startswith("/") else os.path.join(os.path.dirname(fpath), *p.split("/"))
+            tgt = os.path.realpath(tgt_unres)
+            if not (tgt == root or tgt.startswith(root + os.sep)):
+                want_err = "LinkToExternalFileError"
+                break
+            if not os.path.isfile(tgt):
+                want_err = "LinkToNonExistentFileError"
+                break
+            expect.append((mimetypes.guess_type(tgt)[0] or "application/octet-stream", open(tgt, "rb").read()))
+    if want_err == "known-f13":
+        return None if o.get("error") in STATIC_SITE_ERRORS else f"f13: aborted with builtin {o.get('error')}"
+    if want_err is not None:
+        return None if o.get("error") == want_err else f"expected {want_err}, got {o.get('error', 'a page')}"
+    if "error" in o:
+        if o["error"] == "RuntimeError":
+            return "f15: aborted with builtin RuntimeError"
+        return f"unexpected {o['error']}: {o.get('message')}"
+    shown = [v for _a, v in o["refs"]]
+    if len(shown) != len(author):
+        return f"{len(shown)} links on the page, the source has {len(author)}"
+    for i, (url, got) in enumerate(zip(author, shown)):
+        e = expect[i] if a["embed"] else None
+        if e is None:
+            if got.strip() != url.strip():
+                return f"link {url!r} was changed to {got[:60]!r}"
+            continue
+        mime, data = e
+        pre = f"data:{mime};base64,"
+        if not got.startswith(pre):
+            return f"link {url!r}: data URL does not start with {pre!r}: {got[:60]!r}"
+        if base64.b64decode(got[len(pre):], validate=True) != data:
+            return f"link {url!r}: embedded bytes differ from the file"
+    return None
+
+
+def make_alone_case(site: Dict[str, Any], a: Dict[str, Any], seed: int) -> Case:
+    facts = collect_facts(site, alone_facts_factor(a["scale"], a["servings"]))
+    base = os.path.realpath(tempfile.mkdtemp(prefix="rgv_site_"))
+    try:
+        materialise(site["base"], base, base)
+        random.seed(seed)
+        o = _alone_call(base, site, a)
+        viol = oracle_alone(site, base, a, o, facts)
+    finally:
+        shutil.rmtree(base, ignore_errors=True)
+    tags = ["embed" if a["embed"] else "no-embed",
+            "scale" if a["scale"] is not None else "servings" if a["servings"] is not None else "unscaled",
+            ("error:" + o["error"]) if "error" in o else "page"]
+    if "error" not in o and any(v.startswith("data:") for _k, v in o["refs"]):
+        tags.append("has-data-url")
+    coq_in = f"(mk_alone_in {coq_fs(site)} {coq_alone_args(a)} {coq_env(facts)})"
+    impl = {k: v for k, v in o.items() if k != "_html"}
+    if "refs" in impl:
+        impl["refs"] = [[k, v[:80]] for k, v in impl["refs"]]
+    return Case(input={"site": site, "alone": a, "seed": seed}, coq_in=coq_in, coq_out=coq_alone_obs(o), impl=impl,
+                violation=viol, nontrivial=bool(o.get("refs")) or "error" in o, tags=tags)
+
+
+def pick_alone(rng: random.Random, site: Dict[str, Any]) -> Optional[Dict[str, Any]]:
+    recs = [(p, n) for p, n in G.walk(site["base"]) if n["k"] == "f" and "text" in n and p[0] == "src"
+            and G.is_md_name(n["name"]) and not G.is_readme_name(n["name"])]
+    if not recs:
+        return None
+    p, _n = rng.choice(recs)
+    mode = rng.choice(["plain", "plain", "scale", "scale", "servings", "servings", "both"])
+    scale = servings = None
+    if mode in ("scale", "both"):
+        scale = str(rng.choice([Fraction(2), Fraction(3), Fraction(1, 2), Fraction(3, 2), Fraction(1), Fraction(10, 3)]))
+    if mode in ("servings", "both"):
+        servings = rng.choice([1, 2, 3, 5, 7])
+    return {"file": list(p), "scale": scale, "servings": servings, "embed": rng.random() < 0.75}
+
+
+# ------------------------------------------------------------------------------------------------ histories (C17)
+
+def _fresh_hash(base: str, inp: Sequence[str], M: int) -> str:
+    """The same generation in a fresh interpreter (empty compile cache, default directory listing, own RNG)."""
+    import json
+    import subprocess
+    import sys
+    out = tempfile.mkdtemp(prefix="rgv_fresh_")
+    try:
+        code = ("import sys, json\nfrom pathlib import Path\n"
+                "from recipe_grid.static_site.website import generate_static_site\n"
+                "try:\n    generate_static_site(Path(sys.argv[1]), Path(sys.argv[2]), int(sys.argv[3]))\n"
+                "    print('ok')\nexcept Exception as e:\n    print('error:' + type(e).__name__)\n")
+        p = subprocess.run([sys.executable, "-c", code, os.path.join(base, *inp), os.path.join(out, "o"), str(M)],
+                           capture_output=True, text=True, timeout=300, env=dict(os.environ))
+        res = p.stdout.strip().splitlines()[-1] if p.stdout.strip() else "crash:" + p.stderr[-200:]
+        if res != "ok":
+            return res
+        got = read_output(os.path.join(out, "o"))
+        return site_hash(got)
+    finally:
+        shutil.rmtree(out, ignore_errors=True)
+
+
+def apply_write(site: Dict[str, Any], parts: Sequence[str], text: str) -> None:
+    d = G.find(site["base"], parts[:-1])
+    assert d is not None and d["k"] == "d"
+    for ch in d["ch"]:
+        if ch["name"] == parts[-1]:
+            ch.clear()
+            ch.update({"k": "f", "name": parts[-1], "text": text})
+            return
+    d["ch"].append({"k": "f", "name": parts[-1], "text": text})
+
+
+def make_history_case(site: Dict[str, Any], steps: List[Dict[str, Any]], seed: int, fresh: bool = True) -> Case:
+    """steps: {"op": "gen", "M": n, "order": seed|None, "rng": seed} | {"op": "write", "file": parts, "text": str}
+    | {"op": "alone", ...pick_alone fields...}.  One process, one scratch tree, the steps in order."""
+    import copy
+    from pathlib import Path
+    from recipe_grid.static_site.website import generate_static_site
+    cur = copy.deepcopy(site)
+    all_texts_site = copy.deepcopy(site)          # a site that contains every text ever written (for the facts)
+    extra: List[Fraction] = []
+    maxM = site["M"]
+    for st in steps:
+        if st["op"] == "write":
+            all_texts_site["base"]["ch"].append({"k": "f", "name": "w%d" % len(all_texts_site["base"]["ch"]), "text": st["text"]})
+        elif st["op"] == "gen":
+            maxM = max(maxM, st["M"])
+        elif st["op"] == "alone" and st["scale"] is not None:
+            extra.append(Fraction(st["scale"]))
+    all_texts_site["M"] = maxM
+    facts = collect_facts(all_texts_site, extra)
+    base = os.path.realpath(tempfile.mkdtemp(prefix="rgv_site_"))
+    obs_terms: List[str] = []
+    step_terms: List[str] = []
+    digest: List[Any] = []
+    viol: Optional[str] = None
+    try:
+        materialise(cur["base"], base, base)
+        k = 0
+        for st in steps:
+            if st["op"] == "write":
+                apply_write(cur, st["file"], st["text"])
+                with open(os.path.join(base, *st["file"]), "wb") as f:
+                    f.write(st["text"].encode("utf-8"))
+                step_terms.append(f"(HWrite {cpath(['B'] + list(st['file']))} {cbytes(st['text'].encode('utf-8'))})")
+            elif st["op"] == "gen":
+                out = os.path.join(base, "__out%d__" % k)
+                k += 1
+                listed = cur if st.get("order") is None else shuffle_site(cur, st["order"])
+                random.seed(st.get("rng", 0))
+                o: Dict[str, Any] = {}
+                with listing_order(listed["base"], base):
+                    try:
+                        generate_static_site(Path(os.path.join(base, *cur["input"])), Path(out), st["M"])
+                    except RecursionError:
+                        raise
+                    except Exception as e:
+                        o = {"error": exc_name(e), "message": str(e).replace(base, "{BASE}")[:300]}
+                if "error" not in o:
+                    o = read_output(out)
+                shutil.rmtree(out, ignore_errors=True)
+                step_terms.append(f"(HGenerate {cpath(['B'] + list(cur['input']))} {c.n_(st['M'])})")
+                obs_terms.append(f"(HSite {coq_site_obs(o)})")
+                digest.append(obs_json(o))
+                if fresh and viol is None:
+                    fh = _fresh_hash(base, cur["input"], st["M"])
+                    mine = site_hash(o) if "error" not in o else "error:" + o["error"]
+                    if fh.startswith("error:") and mine.startswith("error:"):
+                        pass
+                    elif fh != mine:
+                        viol = (f"generation {k} in the long-lived process (listing order seed {st.get('order')}, RNG seed "
+                                f"{st.get('rng')}) differs from the same generation in a fresh process: {mine[:16]} vs {fh[:16]}")
+            else:
+                random.seed(st.get("rng", 0))
+                o = _alone_call(base, cur, st)
+                step_terms.append(f"(HAlone {coq_alone_args(st)})")
+                obs_terms.append(f"(HAl {coq_alone_obs(o)})")
+                digest.append({kk: vv for kk, vv in o.items() if kk not in ("_html", "refs")})
+    finally:
+        shutil.rmtree(base, ignore_errors=True)
+    coq_in = f"(mk_hist_in {coq_fs(site)} {coq_env(facts)} {c.lst(step_terms, 'hstep')})"
+    ngen = sum(1 for s_ in steps if s_["op"] == "gen")
+    tags = [f"gens:{ngen}", f"writes:{sum(1 for s_ in steps if s_['op'] == 'write')}"]
+    if any(s_["op"] == "alone" for s_ in steps):
+        tags.append("with-standalone")
+    return Case(input={"site": site, "steps": steps, "seed": seed}, coq_in=coq_in, coq_out=c.lst(obs_terms, "hobs"),
+                impl=digest, violation=viol, nontrivial=ngen >= 2, tags=tags)
+
+
+def gen_history(rng: random.Random, site: Dict[str, Any]) -> List[Dict[str, Any]]:
+    """Generations interleaved with edits that are fully visible in the next generation: a recipe's servings and
+    scaled text change, a title changes (re-ordering category lists), a readme title changes; other generations
+    (another M, a stand-alone page) in between warm the cache."""
+    recs = [(p, n) for p, n in G.walk(site["base"]) if n["k"] == "f" and "text" in n and p[0] == "src"
+            and G.is_md_name(n["name"])]
+    steps: List[Dict[str, Any]] = [{"op": "gen", "M": site["M"], "order": rng.randrange(10 ** 6), "rng": rng.randrange(10 ** 6)}]
+    cur_text = {tuple(p): n["text"] for p, n in recs}
+    for _ in range(rng.randrange(1, 4)):
+        r = rng.random()
+        if r < 0.55 and recs:
+            p, n = rng.choice(recs)
+            old = cur_text[tuple(p)]
+            if G.is_readme_name(n["name"]):
+                new = old.replace("# ", "# Edited ", 1) if old.startswith("# ") else old + "\nMore.\n"
+            else:
+                kind = rng.choice(["servings", "title", "body", "swap"])
+                if kind == "swap" and len(recs) > 1:
+                    q, _m = rng.choice(recs)
+                    new = cur_text[tuple(q)] if not G.is_readme_name(q[-1]) else old + "\nSwapped {7}\n"
+                elif kind == "title":
+                    new = old.replace("# ", "# " + rng.choice(["Aardvark ", "Zzz ", "É "]), 1) if "# " in old else old + "\nx\n"
+                elif kind == "servings":
+                    new = "# " + rng.choice(G.TITLES) + " for " + str(rng.randrange(1, site["M"] + 1)) + "\n\nNow {3} and {1/2}\n\n    5 eggs\n"
+                else:
+                    new = old + "\nAdded later {%d}\n" % rng.randrange(2, 9)
+            cur_text[tuple(p)] = new
+            steps.append({"op": "write", "file": list(p), "text": new})
+            steps.append({"op": "gen", "M": site["M"], "order": rng.randrange(10 ** 6), "rng": rng.randrange(10 ** 6)})
+        elif r < 0.75:
+            steps.append({"op": "gen", "M": rng.randrange(site["M"], site["M"] + 3), "order": rng.randrange(10 ** 6),
+                          "rng": rng.randrange(10 ** 6)})
+        else:
+            a = pick_alone(rng, site)
+            if a is not None:
+                a.update({"op": "alone", "rng": rng.randrange(10 ** 6)})
+                steps.append(a)
+    if steps[-1]["op"] != "gen":
+        steps.append({"op": "gen", "M": site["M"], "order": rng.randrange(10 ** 6), "rng": rng.randrange(10 ** 6)})
+    return steps
